@@ -146,6 +146,38 @@ func checkMk(t *Toks, literal bool) string {
 		}
 		addSoft(fail("corrupt-count-same-root", "inrange"))
 	}
+	// repeated-tail forgery (CVE-2012-2459): where a level of the tree has an odd width (the last node is
+	// hashed with itself) and that last node is a complete subtree of 2^h leaves, a "block" that repeats
+	// those leaves has the same merkle root; a proof for it that descends into both copies must be
+	// refused (or give another root), whatever the level
+	for h := 0; (1 << uint(h)) < n; h++ {
+		w := 1 << uint(h)
+		if n%w != 0 || (n/w)%2 == 0 || n/w < 3 {
+			continue
+		}
+		ftx := append(append([][]byte{}, txids...), txids[n-w:]...)
+		if !bytes.Equal(mkRootLevels(ftx), root) {
+			return fail("forgery-construction", fmt.Sprintf("level=%d", h)) // harness error, not a finding
+		}
+		for variant := 0; variant < 3; variant++ {
+			fm := append(append([]bool{}, matched...), matched[n-w:]...)
+			switch variant {
+			case 0: // the last id of both copies
+				fm[n-1], fm[n+w-1] = true, true
+			case 1: // all of both copies
+				for i := n - w; i < n+w; i++ {
+					fm[i] = true
+				}
+			case 2: // first id of the original, last id of the copy
+				fm[n-w], fm[n+w-1] = true, true
+			}
+			fp := mkPMT(ftx, fm)
+			r := runProof(mkBlob(header, uint32(n+w), fp.hashes, packBits(fp.bits)))
+			if r.class == "ok" && bytes.Equal(r.root, root) {
+				return fail("repeated-subtree-forgery-accepted", fmt.Sprintf("level=%d/count=%d->%d/matches=%d", h, n, n+w, len(r.matches)))
+			}
+		}
+	}
 	// surplus hash, surplus flag byte
 	for _, extra := range [][]byte{p.hashes[len(p.hashes)-1], bytes.Repeat([]byte{0x5a}, 32), root} {
 		if r := runProof(mkBlob(header, uint32(n), append(append([][]byte{}, p.hashes...), extra), flags)); r.class == "ok" {
@@ -270,9 +302,18 @@ func checkC20Claim(t *Toks) string {
 			return fail("claim-shape", "counts")
 		}
 		in := tx.Inputs[0]
-		if !bytes.Equal(in.Hash, c.txid) || (nmain == 1 && in.Index != uint32(vout)) {
-			return fail("claim-outpoint", "")
+		if !bytes.Equal(in.Hash, c.txid) {
+			return fail("claim-outpoint", "hash")
 		}
+		// the claimed outpoint must be an output of the bitcoin transaction that pays the peg-in script
+		// (with several such outputs any of them is a legitimate choice; the amount follows the choice)
+		if int(in.Index) >= len(c.outVals) || !bytes.Equal(c.outScripts[in.Index], c.mainScript) {
+			return fail("claim-outpoint", "not-a-pegin-output")
+		}
+		if nmain == 1 && in.Index != uint32(vout) {
+			return fail("claim-outpoint", "index")
+		}
+		pegged := c.outVals[in.Index] // the pegged amount is the value of the claimed outpoint
 		if !in.IsPegin {
 			return fail("claim-pegin-flag", "field")
 		}
@@ -286,15 +327,12 @@ func checkC20Claim(t *Toks) string {
 			return fail("claim-pegin-flag", "wire")
 		}
 		var le [8]byte
-		binary.LittleEndian.PutUint64(le[:], amount)
+		binary.LittleEndian.PutUint64(le[:], pegged)
 		want := [][]byte{le[:], c.asset[1:], reverse(c.genesis), c.claimScript, c.stripped, c.proof}
 		if len(in.PeginWitness) != 6 {
 			return fail("claim-witness", fmt.Sprintf("len=%d", len(in.PeginWitness)))
 		}
 		for i := range want {
-			if nmain > 1 && i == 0 {
-				continue
-			}
 			if !bytes.Equal(in.PeginWitness[i], want[i]) {
 				return fail("claim-witness", fmt.Sprintf("element=%d", i))
 			}
@@ -315,16 +353,14 @@ func checkC20Claim(t *Toks) string {
 		if !ok0 || !ok1 {
 			return fail("claim-output-value", "not-explicit")
 		}
-		if nmain == 1 {
-			if v1 > amount {
-				if v0+v1 == amount { // wrapped modulo 2^64
-					return fail("claim-fee-wrap", "fee-exceeds-amount")
-				}
-				return fail("claim-sum", "fee-exceeds-amount-and-not-even-modular")
+		if v1 > pegged {
+			if v0+v1 == pegged { // wrapped modulo 2^64
+				return fail("claim-fee-wrap", "fee-exceeds-amount")
 			}
-			if v0+v1 != amount || v0 > amount {
-				return fail("claim-sum", fmt.Sprintf("rate=%d", ri))
-			}
+			return fail("claim-sum", "fee-exceeds-amount-and-not-even-modular")
+		}
+		if v0+v1 != pegged || v0 > pegged {
+			return fail("claim-sum", fmt.Sprintf("rate=%d/outputs-paying-pegin-script=%d", ri, nmain))
 		}
 	}
 	return "OK"
